@@ -368,3 +368,33 @@ def _absence_signal(model: Model, rep: Report) -> None:
             cls = model.resolve_expr(ld.module, last.exc.func if isinstance(last.exc, ast.Call) else last.exc, ld.cls) or "?"
         ok = isinstance(last, ast.Raise) and cls in model.classes and model.is_subclass(cls, D + "PDFNoValidXRef")
         r12.check(ok, site(ld, t), ld.qualname, f"`if {unparse(t.test)}:` ends in raise PDFNoValidXRef", why="a malformed line is skipped (or signalled otherwise): the damaged table is accepted as a shorter one and the objects it lost are never looked for in the body")
+
+
+def _chain_both(model: Model, rep: Report) -> None:
+    """C02-R15: a hybrid update section has both /XRefStm and /Prev; the stream part is read and the chain goes on.  Each of the
+    two recursive reads stands under the presence test of its own key and under nothing else - in particular not under the
+    absence of the other key (`elif "Prev" in trailer` ends the chain at the first hybrid section: every older revision is lost)."""
+    from ..util import guard_conjuncts
+
+    r = rep.rule("C02-R15", "GUARD", "read_xref_from follows /XRefStm and /Prev independently: each recursive read runs under the presence test of its own key only", 2)
+    f = model.func("pdfminer.pdfdocument.PDFDocument.read_xref_from")
+    calls = [c for c in walk_no_nested(f.node) if isinstance(c, ast.Call) and (dotted(c.func) or "") == "self.read_xref_from"]
+    if len(calls) < 2:
+        raise AnchorMissing("read_xref_from: the two recursive reads not found")
+    seen = set()
+    for c in calls:
+        g = guard_conjuncts(f, c)
+        keys = [k for k in ("XRefStm", "Prev") if any(f"'{k}'intrailer" in x and not x.startswith("not") for x in g)]
+        other = [x for x in g if "intrailer" in x and (x.startswith("not") or "notin" in x)]
+        ok = len(keys) == 1 and not other and len(g) == 1
+        seen.update(keys)
+        r.check(ok, site(f, c), f.qualname, f"recursive read under {sorted(g)}", why=f"conditions {sorted(g)}: the read of one key depends on the other key - a hybrid section with both /XRefStm and /Prev loses its stream part or every earlier revision")
+    r.check(seen == {"XRefStm", "Prev"}, site(f), f.qualname, "both /XRefStm and /Prev are followed", why=f"followed: {sorted(seen)}")
+
+
+_run_r1_r14 = run
+
+
+def run(model: Model, rep: Report) -> None:  # noqa: F811
+    _run_r1_r14(model, rep)
+    _chain_both(model, rep)
